@@ -93,11 +93,12 @@ func init() {
 		"absence of run-time panics (index, nil) in the numeric code paths in general; the cell (+0)+(-0) under ToNegativeInf is left unconstrained (the code follows math/big, see DESIGN §5 F15)",
 		techCDAI, cdaiAssume, fxAssume)
 	p("C05",
-		[]string{"T-UNARY@Sqrt(", "FX-STICKY@(*Decimal).Sqrt|sqrtInverse", "FX-RBW@(*Decimal).Sqrt", "FX-RAW@(*Decimal).Sqrt|sqrtInverse", "FX-GLOBAL@oneHalf|three", "FX-IMMUT@(*Decimal).Sqrt|sqrtInverse", "MODE@Sqrt"},
+		[]string{"T-UNARY@Sqrt(", "FX-STICKY@(*Decimal).Sqrt|sqrtInverse", "FX-RBW@(*Decimal).Sqrt", "FX-RAW@(*Decimal).Sqrt|sqrtInverse", "FX-GLOBAL@oneHalf|three", "FX-IMMUT@(*Decimal).Sqrt|sqrtInverse", "MODE@Sqrt", "SQRTSHAPE", "PRECWRAP@sqrtInverse"},
 		[]string{
 			"T-UNARY for Sqrt: special values; the receiver's precision and rounding mode are the same after the call as before (also on the finite path, where the root computation is entered with the receiver's precision and mode and a non-negative value).",
 			"FX-STICKY: precision and mode of the receiver are restored on every exit of Sqrt (through MantExp -> Copy).",
 			"FX-RBW/FX-RAW/FX-IMMUT: Sqrt does not depend on the receiver's previous contents, has no read-after-write hazard for z == x, and never writes x; FX-GLOBAL: the shared constants oneHalf and three are only ever operands.",
+			"SQRTSHAPE: the root is produced by an arithmetic method whose receiver is z itself (z.Mul(z, t)), so z's precision and rounding mode govern the single final rounding — a Set from a temporary would round first under the temporary's mode; the Newton iteration targets the receiver's precision plus a positive constant. MODE: Sqrt does not write the mode after a rounding step. PRECWRAP: uint32 arithmetic on the working precision that wraps near MaxPrec — this obligation FAILS on the tree for sqrtInverse and is the known finding F19.",
 		},
 		"that prec+2 working digits and the final multiplication give the correctly rounded root (numeric, not applicable)",
 		techCDAI, cdaiAssume, fxAssume)
@@ -149,9 +150,10 @@ func init() {
 		"stale words in a reused mantissa buffer (dec.make does not clear) beyond the INIT rule",
 		techFX+"; plus E4 tables under aliasing", cdaiAssume, fxAssume)
 	p("C11",
-		[]string{"FMTSHAPE@MarshalText|shortest|infinity|exponent-marker", "FX-IMMUT@(*Decimal).Append|(*Decimal).Text|(*Decimal).String|(*Decimal).Format|(*Decimal).fmt|(*Decimal).toa|(*Decimal).MarshalText|(*Decimal).bufSizeForFmt", "CONST@pow10tab|decMaxPow", "EXP"},
+		[]string{"FMTSHAPE@MarshalText|shortest|infinity|exponent-marker", "FX-IMMUT@(*Decimal).Append|(*Decimal).Text|(*Decimal).String|(*Decimal).Format|(*Decimal).fmt|(*Decimal).toa|(*Decimal).MarshalText|(*Decimal).bufSizeForFmt", "CONST@pow10tab|decMaxPow", "EXP", "SCANSHAPE@exp-bits"},
 		[]string{
 			"FMTSHAPE: MarshalText (hence JSON) calls Append with a constant negative precision in a format Parse reads; on the negative-precision path Append makes no rounding copy; the infinity spelling Append writes is one Parse compares against and the exponent markers of the b and p formats are among those scanExponent accepts.",
+			"EXP(ii)/(iv): no int32 arithmetic on the exponent in the writers; SCANSHAPE/exp-bits: the reader parses the exponent field as a signed 64-bit integer — fmtE writes x.exp-1 and fmtB x.exp-prec, which fall below MinInt32 for values near MinExp, so a narrower parse cannot read back what the writer produced.",
 			"FX-IMMUT: no formatter writes its operand; CONST: pow10tab and decMaxPow (digit grouping used by both the writer and the reader) equal their mathematical definition.",
 		},
 		"round-trip equality of digits and exponent: NOT APPLICABLE to static analysis (digit placement in fmtE/fmtF/itoa and digit accumulation in scan are loop arithmetic over run-time values); this check is a thin necessary-condition claim only",
@@ -176,20 +178,22 @@ func init() {
 		"digit counts, %g exponent thresholds, padding and layout: NOT APPLICABLE to static analysis (arithmetic on run-time lengths); thin necessary-condition claim only",
 		"shape rules on the SSA form of Append/Format (receiver chain of the rounding copy, dominance of the precision test, lower-bound reasoning on the requested precision)", fxAssume)
 	p("C14",
-		[]string{"T-CONV@Int64(|Uint64(|Int(|Rat(", "T-UNARY@SetInt|SetUint64(|NewDecimal(|MinPrec(|IsInt(", "FX-STICKY@SetInt|SetUint64|SetRat|setBits64", "PREC0@SetInt|SetUint64|SetRat|setBits64|NewDecimal", "EXP@setBits64|SetInt", "NORM@setBits64|SetInt", "MUSTFLOW@setBits64|SetInt", "SIGN@SetInt|setBits64"},
+		[]string{"T-CONV@Int64(|Uint64(|Int(|Rat(", "T-UNARY@SetInt|SetUint64(|NewDecimal(|MinPrec(|IsInt(", "FX-STICKY@SetInt|SetUint64|SetRat|setBits64", "PREC0@SetInt|SetUint64|SetRat|setBits64|NewDecimal", "EXP@setBits64|SetInt|limitExp", "NORM@setBits64|SetInt", "MUSTFLOW@setBits64|SetInt", "SIGN@SetInt|setBits64", "OUTPARAM@Int/|Rat/"},
 		[]string{
 			"T-CONV: Int64/Uint64/Int/Rat for ±0, ±Inf and finite values by exponent class give the documented saturation values and accuracies.",
 			"T-UNARY: SetInt/SetInt64/SetUint64/NewDecimal set the sign before rounding, +0 for a zero argument, keep a non-zero precision and choose the documented default otherwise; MinPrec/IsInt special cases.",
 			"FX-STICKY/PREC0 for the integer setters.",
 			"EXP(iii): NewDecimal's caller-supplied exponent is clamped before it enters the int64 sum (saturation to ±0/±Inf instead of wrap-around); NORM/MUSTFLOW/SIGN for the integer setters.",
+			"EXP(iv): the clamp of limitExp lies in [2^34, 2^62] (wide enough that clamped offsets stay out of range, narrow enough that the int64 sum cannot wrap). OUTPARAM: a caller-supplied *big.Int / *big.Rat is completely redefined on every exit of Int and Rat that returns it (for Rat: the denominator is written, not only the numerator).",
 		},
 		"exactness of the radix conversions and of SetInt's precision estimate (numeric)",
 		techCDAI, cdaiAssume, fxAssume)
 	p("C15",
-		[]string{"T-CONV@SetFloat", "FX-RBW@SetFloat", "FX-STICKY@SetFloat"},
+		[]string{"T-CONV@SetFloat", "FX-RBW@SetFloat", "FX-STICKY@SetFloat", "OUTPARAM@Float/", "PRECWRAP@SetFloat"},
 		[]string{
 			"T-CONV: SetFloat64 and SetFloat dispatch on the ARGUMENT's class: NaN -> ErrNaN, ±0 and ±Inf map to themselves with the argument's sign and Exact accuracy, a finite value enters the scaling arithmetic with the argument's sign and is rounded last with the receiver's precision.",
 			"FX-RBW: neither reads the receiver's previous form/sign; FX-STICKY: the temporary precision increment is undone on every exit.",
+			"T-CONV (guard digit): the scaling Mul/Quo by 2**n runs at a precision strictly above the final one (otherwise the value is rounded twice). OUTPARAM: a caller-supplied *big.Float is completely redefined on every exit of Float that returns it. PRECWRAP: the temporary extra digit is taken only on a path where prec < MaxPrec holds (z.prec++ at MaxPrec wraps to 0: F18, fixed).",
 		},
 		"nearest/faithful rounding of the conversions, double rounding in Float32/Float64 (numeric, not applicable)",
 		techCDAI, cdaiAssume, fxAssume)
@@ -203,13 +207,13 @@ func init() {
 		"that ucmp's zero-padding loop compares the right words (loop arithmetic)",
 		techCDAI, cdaiAssume, fxAssume)
 	p("C17",
-		[]string{"GOB", "FX-OWN@GobDecode", "MODE@GobDecode", "LOWCUT@GobEncode"},
+		[]string{"GOB", "FX-OWN@GobDecode", "MODE@GobDecode", "LOWCUT@GobEncode", "PRECWRAP@GobEncode"},
 		[]string{
 			"GOB G1: every buf[k], buf[k:] and fixed-width read in GobDecode is dominated by a comparison establishing len(buf) >= what it needs (no panic on truncated input).",
 			"G2: the decoded mode, accuracy and form are compared with the largest enumerator before being stored; the decoded mantissa is rejected unless non-empty, normalised (top word >= base/10), every word < base (a test inside a loop over the mantissa whose header dominates the store) and its digit count fits the decoded precision (so finite implies precision > 0); it is decoded into a fresh buffer.",
 			"G3: GobEncode and GobDecode agree on (shift, mask, bias) of every header field and on the byte offsets of prec, exp and mantissa.",
 			"G4: a receiver whose precision was not 0 gets its precision and mode back (every success exit passes the restoring block, which calls SetPrec(oldPrec), i.e. rounds); G5: the version is tested before anything is decoded.",
-			"MODE: in GobDecode the receiver's own rounding mode is back in force before SetPrec rounds the decoded value into the receiver's precision (a mode written after the rounding call means the sender's mode did the rounding); LOWCUT: GobEncode encodes the top (most significant) words of the mantissa, never a prefix m[:n].",
+			"MODE: in GobDecode the receiver's own rounding mode is back in force before SetPrec rounds the decoded value into the receiver's precision (a mode written after the rounding call means the sender's mode did the rounding); LOWCUT: GobEncode encodes the top (most significant) words of the mantissa, never a prefix m[:n]. PRECWRAP: the number of words to encode is not computed in uint32 from the precision (it wrapped to 0 near MaxPrec: F17, fixed).",
 		},
 		"value equality after a round trip (word order inside dec.bytes/setBytes is loop arithmetic)",
 		"dominance/interval analysis on the SSA form of GobDecode plus sibling agreement with GobEncode", fxAssume)
@@ -232,11 +236,11 @@ func init() {
 		"exclusive ownership of pooled scratch buffers between getDec and putDec (POOL rule) and the store targets of the assembly kernels (E7) where not yet listed; equality of concurrent and sequential results beyond 'no shared write'",
 		techFX, fxAssume)
 	p("C20",
-		[]string{"T-UNARY@MantExp(|SetMantExp(", "PREC0@SetBitsExp|SetMantExp|MantExp", "FX-RBW@SetBitsExp|SetMantExp", "FX-RAW@MantExp|SetMantExp", "FX-OWN@BitsExp|SetBitsExp|MantExp|SetMantExp|Copy", "FX-STICKY@SetBitsExp", "EXP@SetBitsExp|SetMantExp", "NORM@SetBitsExp", "MUSTFLOW@SetBitsExp", "SIGN@SetBitsExp", "LOWCUT"},
+		[]string{"T-UNARY@MantExp(|SetMantExp(", "PREC0@SetBitsExp|SetMantExp|MantExp", "FX-RBW@SetBitsExp|SetMantExp", "FX-RAW@MantExp|SetMantExp", "FX-OWN@BitsExp|SetBitsExp|MantExp|SetMantExp|Copy", "FX-STICKY@SetBitsExp", "EXP@SetBitsExp|SetMantExp|limitExp", "NORM@SetBitsExp", "MUSTFLOW@SetBitsExp", "SIGN@SetBitsExp", "LOWCUT"},
 		[]string{
 			"T-UNARY: MantExp returns 0 and copies form/sign for ±0/±Inf, returns x's exponent and leaves mant with exponent 0 otherwise (also for mant nil and mant = x); SetMantExp copies zeros/infinities without scaling and enters setExpAndRound with exponent(mant)+exp and the sign already set, also for z = mant.",
 			"PREC0: SetBitsExp/SetMantExp never round with precision 0; FX-RBW: nothing of the old receiver is read; FX-RAW: MantExp(x == mant) and SetMantExp(z == mant) have no read-after-write hazard; FX-OWN: the only functions that share a mantissa array with the caller are SetBitsExp and BitsExp (documented).",
-			"EXP(iii): the int64 exponent arithmetic of SetBitsExp/SetMantExp cannot wrap before the range check (caller's term clamped); NORM + MUSTFLOW: SetBitsExp strips zero words, normalises, and both corrections reach the exponent.",
+			"EXP(iii)/(iv): the int64 exponent arithmetic of SetBitsExp/SetMantExp cannot wrap before the range check (caller's term clamped, with a clamp in [2^34, 2^62] so that offsets that cancel against the other summand still give the right in-range result); NORM + MUSTFLOW: SetBitsExp strips zero words, normalises, and both corrections reach the exponent.",
 		},
 		"the exponent-correction arithmetic of SetBitsExp/BitsExp (numeric)",
 		techCDAI, cdaiAssume, fxAssume)
